@@ -25,6 +25,27 @@ HOOK_COMMITS = ["9929591", "7ba38e4", "8db2741"]
 MODEL_PROPERTIES = ["C02", "C05", "C07", "C08", "C09", "C10", "C11", "C12"]
 NOT_CLAIMED = {}
 
+def c17_post(agg, records, violations, failures, tier):
+    """Joins the record streams of the optimised and the portable build by case id."""
+    by_id = {}
+    for r in records:
+        if r.get("type") == "c17":
+            by_id.setdefault(r["id"], {})[r["_variant"]] = r
+    joined = 0
+    for cid, d in sorted(by_id.items()):
+        if "opt" in d and "port" in d:
+            joined += 1
+            if d["opt"]["value"] != d["port"]["value"]:
+                kind = cid.split(":")[1] if cid.startswith("s") and ":" in cid else cid.split(":")[0]
+                kind = kind.split("-")[0] if kind.startswith("arith") else kind
+                violations.append(("C17:crossbuild:%s-differs-between-optimised-and-portable-build" % kind,
+                                   {"id": cid, "what": d["opt"].get("what"), "optimised": d["opt"]["value"][:600], "portable": d["port"]["value"][:600], "_cmd": ["rxv", "c17"], "_variant": "port"}))
+        else:
+            failures.append("C17 record %s present in only one build" % cid)
+    agg["counters"]["cases_joined_across_builds"] = joined
+    agg["floors"].add("cases_joined_across_builds")
+
+
 CHECKS = {
     "C02": {
         "level": "exploration",
@@ -260,5 +281,19 @@ CHECKS = {
         "assumptions": ["the harness binary is linked with a non-executable stack (-z noexecstack) so that /proc/self/maps snapshots are meaningful; librandomx's .S file lacks a .note.GNU-stack section, which would otherwise make the process stack executable - not a code buffer owned by the library, not judged"],
         "level_text": "Every protection request of every explored history is checked online against the W^X rule with the kernel's own view as a second reading. Histories are sampled: exploration.",
         "level_note": "The cache clause is unconditional: the same online checker also judges cache-owned mappings in every other check that runs through the interposition layer.",
+    },
+    "C17": {
+        "level": "exploration",
+        "technique": "cross-build differential: the same seed-derived case stream executed by the default x86-64 build and by a build forced onto the generic C++ fallbacks, results joined by case id",
+        "jobs": lambda tier: [
+            {"variant": "opt", "sub": "c17", "shards": 8, "cases": T(tier, 60, 3000), "args": {"nhashes": T(tier, 2, 8)}, "timeout": T(tier, 1800, 10800)},
+            {"variant": "port", "sub": "c17", "shards": 8, "cases": T(tier, 60, 3000), "args": {"nhashes": T(tier, 2, 8)}, "timeout": T(tier, 1800, 10800)},
+        ],
+        "post": c17_post,
+        "rule": "the portable build compiles every source with -U__SSE2__ -U__SSE__ -U__SSE3__ -U__SSSE3__ -U__AES__ -U__SIZEOF_INT128__ (struct-based rx_vec_*, fenv-based rounding, 32x32 mulh/smulh, shift-based rotates, table AES); both builds run: mulh/smulh/rotr/rotl on an edge grid and on random operand pairs (running hashes emitted every 65536 pairs), reciprocals, "
+                "program buffers from the six C04 generators through the interpreter (256-byte register file, scratchpad hash, exit rounding mode), whole hashes on interpreter VMs under each of the four fenv rounding modes (mode must be preserved) and dataset items; records with the same id must be identical; distinct by hash of the program buffer",
+        "assumptions": ["this is the generic fallback as compiled by gcc for x86-64, not another architecture's compiler or FPU: double arithmetic still executes on SSE scalar instructions; endianness-dependent branches are not reached", "the JIT is identical in both builds and is not part of this check"],
+        "level_text": "Every observable the property names (digests, per-program results, dataset items, preserved rounding mode) is compared between two differently configured builds of the same tree on thousands of cases. Sampling: exploration.",
+        "level_note": "Both builds are rebuilt from /repo's working tree on every run.",
     },
 }
